@@ -378,7 +378,45 @@ def check_config(case):
             "count": {"calls": len(here), "accepts": here.count("accept")}}
 
 
+# ---- (d) ambient inputs: environment variables and files the verifiers look at -------------------------------------------
+
+ENV_VALUES = ["1", "0", "true", "yes", "", "debug", "/nonexistent", "never"]
+
+
+def check_ambient(case):
+    """The verifiers take no paths and no configuration: whatever they read besides their arguments is an ambient input.
+    A child interpreter records every environment variable read and every file opened from repository code (import time
+    included) while the corpus runs; each variable found is then set to a series of values and the outcome vector must not move."""
+    base_cfg = dict(case["configs"][0], extra_env={})
+    r = configrun.run_child("ambient", case["calls"], base_cfg)
+    if not isinstance(r, dict) or "verdicts" not in r:
+        raise Violation("child interpreter failed: %s" % (r.get("stderr", "")[-300:] if isinstance(r, dict) else r), bucket="child failed")
+    if r["file_opens"]:
+        raise Violation("verification opened files although it is given no path: %r" % r["file_opens"][:3],
+                        bucket="verifier reads/writes files")
+    want = []
+    for c in case["calls"]:
+        want.append(RV.signable(c[1], c[2], c[3], c[4]) if c[0] == "verify_signable" else
+                    RV.root_update(c[1], c[2]) if c[0] == "verify_root" else RV.delegation(c[1], c[2], c[3], c[4]))
+    for i, (w, g_) in enumerate(zip(want, r["verdicts"])):
+        bad = RV.mismatch(w, g_)
+        if bad:
+            raise Violation("call %d (%s): %s" % (i, case["calls"][i][0], bad), bucket="verdict wrong in child")
+    probes = 0
+    for key in r["env_reads"]:
+        for val in ENV_VALUES:
+            got = configrun.run_child("calls", case["calls"], dict(base_cfg, extra_env={key: val}))
+            probes += 1
+            if got != r["verdicts"]:
+                raise Violation("the library reads the environment variable %s; with %s=%r the outcomes of identical calls change "
+                                "from %r to %r" % (key, key, val, r["verdicts"], got), bucket="verdict depends on environment variable")
+    return {"nontrivial": len(set(r["verdicts"])) > 1, "labels": ["env-vars-read=%d" % len(r["env_reads"])],
+            "count": {"env_probes": probes, "calls": len(want)}}
+
+
 UNITS = [
+    Unit("ambient", check_ambient, strategy=_config_cases, quick=8, thorough=100, shards_quick=8, shrink=False,
+         doc="environment variables / files touched by the verifiers are discovered by tracing and then varied"),
     Unit("history", check_history, strategy=_histories, quick=300, thorough=12000, shards_quick=8,
          essential=["repeat", "related_payload", "wrap_as_signable", "verify_delegation"],
          doc="call histories over a shared pool: argument snapshots, determinism, identity independence, wrap copies"),
